@@ -263,7 +263,7 @@ class PSyLoop(Loop):
         '''
         for kern_call in self.coded_kernels():
             for arg in kern_call.arguments.args:
-                if arg.access == AccessType.INC:
+                if arg.access in (AccessType.INC, AccessType.READINC):
                     return True
         return False
 
